@@ -31,7 +31,7 @@ type fdSpec struct {
 	// Effect returns a label to append to the trace when ins executes ("" = none) and whether the walk stops here.
 	Effect func(ins ssa.Instruction, eval func(ssa.Value) fdVal) (label string, stop bool)
 	// Return labels a return instruction (given the resolved result values).
-	Return func(ret *ssa.Return, res []ssa.Value, eval func(ssa.Value) fdVal) string
+	Return    func(ret *ssa.Return, res []ssa.Value, eval func(ssa.Value) fdVal) string
 	MaxVisits int
 	// Inline says whether a statically resolved callee is walked as part of the caller (nil = never).
 	// Calls that Symbol names or Effect labels are never inlined.
